@@ -31,6 +31,7 @@ import (
 	"github.com/itchyny/gojq"
 	"github.com/itchyny/gojq/cli"
 
+	"verifharness/c1516"
 	"verifharness/common"
 )
 
@@ -467,7 +468,7 @@ func main() {
 	var sample []runCase
 	distinct := 0
 	combos := map[int]bool{}
-	nCases := ctx.N(7000, 150000)
+	nCases := ctx.N(40000, 600000)
 	for i := 0; i < nCases; i++ {
 		oi := i % 512
 		if i >= 1024 {
@@ -573,7 +574,7 @@ func main() {
 				map[string]any{"args": args, "stdin": text, "observed": got, "expected": want, "library_outputs": strings.Join(fields, " | "),
 					"cmd": fmt.Sprintf("printf %%s%s | gojq%s; echo status=$?", shq([]string{text}), shq(args))})
 		}
-		if len(sample) < ctx.N(60, 600) && (i%97 == 0 || wstatus > 5 || wstatus < 0) {
+		if len(sample) < ctx.N(120, 1200) && (i%97 == 0 || wstatus > 5 || wstatus < 0) {
 			sample = append(sample, runCase{args, text, want})
 		}
 	}
@@ -582,6 +583,7 @@ func main() {
 	orc.Samples = []string{`printf '1 2' | gojq -e 'if . == 1 then error("x") else null end'  -> stdout "null\n", status 5`, `gojq -n --raw-output0 '"a\u0000b", 1' -> status 5, nothing printed`, `printf '1 2 3' | gojq '., if . == 2 then "bye\n" | halt_error(3) else empty end' -> 1 2 then status 3`}
 	ctx.RunStream(st, lines, impl)
 
+	c1516.FlagsCorrespondence(ctx, r.Fork(8))
 	earlyOracle(ctx, r.Fork(7))
 	binaryOracle(ctx, sample)
 	ctx.Finish()
